@@ -44,7 +44,10 @@ def gen_init(rng, lo=4, hi=12):
     return {"x": [str(v) for v in x], "y": [str(v) for v in y],
             "as_list": rng.random() < 0.25, "int_x": int_x, "int_y": int_y, "x_none": rng.random() < 0.05,
             # the application treats warnings as errors (python -W error, pytest filterwarnings=error)
-            "werror": rng.random() < 0.15}
+            "werror": rng.random() < 0.15,
+            # parameters as Python literals or in another type (numpy.bool_ flags, NumPy integer counts, 0-d array
+            # bounds, names that are not the interned literals)
+            "argrep": S.pick_argrep(rng, 0.7)}
 
 
 def gen_domain_op(rng, allow=DOMAIN):
@@ -119,7 +122,7 @@ def gen_reshape_op(rng, allow=RESHAPE):
 
 
 FAIL_KINDS = ["recreate_bad_kwarg", "recreate_small_n", "interp_bad_method", "match_bad_rule", "match_bad_strategy",
-              "interp_grid_period", "interp_grid_ends", "trunc_inverted", "trunci_bounds"]
+              "interp_grid_period", "interp_grid_ends", "interp_grid_ulp", "trunc_inverted", "trunci_bounds"]
 
 
 def gen_fail_op(rng):
@@ -284,6 +287,16 @@ def apply_op(w, op, rng_state=None):
                 elif kind == "interp_grid_ends":
                     lo, hi = (xs_[0], xs_[-1]) if len(xs_) >= 2 else (0.0, 1.0)
                     w.interpolate(new_x=np.linspace(lo + (hi - lo) / 4 + 0.25, hi, len(xs_) + 2))
+                elif kind == "interp_grid_ulp":
+                    # the caller's own grid, its last point one unit in the last place beyond the series' (a range
+                    # recomputed by the caller): refused - and the caller's array is the caller's
+                    g = np.array(xs_ if len(xs_) >= 2 else [0.0, 1.0])
+                    g[-1] = math.nextafter(g[-1], math.inf)
+                    keep = g.copy()
+                    try:
+                        w.interpolate(new_x=g)
+                    finally:
+                        op["_grid_modified"] = not np.array_equal(g, keep)
                 elif kind == "trunc_inverted":
                     lo, hi = (xs_[0], xs_[-1]) if len(xs_) >= 2 else (0.0, 1.0)
                     w.truncate_by_value(hi + 1.0, lo - 1.0)
@@ -309,8 +322,9 @@ def apply_op(w, op, rng_state=None):
         else:
             setattr(w, name, np.asarray(tgt, dtype=float) + float(v))     # the public field is assigned a new array
         return f"wpoke {fmt(v)} 0" if name == "x" else f"wpoke 0 {fmt(v)}"
+    rep = getattr(_TL, "argrep", "plain")
     if k == "append":
-        w.append_one_sample(make_periodic=op["periodic"])
+        w.append_one_sample(make_periodic=S.flag(op["periodic"], rep))
         return f"wop append {1 if op['periodic'] else 0}"
     if k in ("shift_x", "shift_y", "scale_x", "scale_y"):
         v = Fraction(op["v"])
@@ -323,7 +337,7 @@ def apply_op(w, op, rng_state=None):
             getattr(w, "normalize_" + k[-1])(float(lo), float(hi))
         return f"wop {k.replace('_', '')} {fmt(lo)} {fmt(hi)}"
     if k == "repeat":
-        w.repeat(op["r"])
+        w.repeat(S.count(op["r"], rep, narrow=False))
         return f"wop repeat {op['r']}"
     if k == "trunc_v":
         n = len(x)
@@ -372,7 +386,11 @@ def apply_op(w, op, rng_state=None):
         line = f"wop truncv {lt} {rt} {1 if op['lr'] else 0} {1 if op['rr'] else 0}"
         op["_line"] = line
         op["_args"] = [lv, rv]
-        w.truncate_by_value(lv, rv, x_left_as_ratio=op["lr"], x_right_as_ratio=op["rr"])
+        # the bounds as floats, NumPy scalars or 0-d arrays (which a callee could write to)
+        bl, br = S.real(lv, rep), S.real(rv, rep)
+        w.truncate_by_value(bl, br, x_left_as_ratio=S.flag(op["lr"], rep), x_right_as_ratio=S.flag(op["rr"], rep))
+        if float(bl) != lv or float(br) != rv:
+            raise AssertionError("truncate_by_value wrote into the bound objects handed in by the caller")
         return line
     if k == "trunc_i":
         if "a" in op:
@@ -427,8 +445,9 @@ def apply_op(w, op, rng_state=None):
             kw["fixed_points_indices_in_x"] = list(fpi)
         with warnings.catch_warnings():
             _quiet()
-            w.integral_match(target_function_integral_method=op["target"], reference_function_integral_method=op["ref"],
-                             alpha=op["alpha"], fixed_points_finding_strategy=op["strategy"], **kw)
+            w.integral_match(target_function_integral_method=S.text(op["target"], rep),
+                             reference_function_integral_method=S.text(op["ref"], rep),
+                             alpha=op["alpha"], fixed_points_finding_strategy=S.text(op["strategy"], rep), **kw)
         return line
     if k == "interp":
         m = op["method"]
@@ -443,6 +462,10 @@ def apply_op(w, op, rng_state=None):
             r0 = float(np.asarray(w.reference_x, dtype=float)[0])
             toks.append(fmt(Fraction(r0)))
             vals.append(r0)
+        elif op.get("bad_ends") == "ulp":
+            v0 = math.nextafter(float(x[0]), -math.inf)
+            toks.append(fmt(Fraction(v0)))
+            vals.append(v0)
         elif op.get("bad_ends"):
             toks.append(fmt(Fraction(float(x[0]) - 1.0)))
             vals.append(float(x[0]) - 1.0)
@@ -502,7 +525,7 @@ def apply_op(w, op, rng_state=None):
             # the identity trend, written so that it hands back a view of its argument when given an array
             w.trend(lambda t: np.asarray(t).reshape(np.shape(t)), normalized=op["normalized"])
         else:
-            w.trend(f, normalized=op["normalized"])
+            w.trend(f, normalized=S.flag(op["normalized"], rep))
         return line
     if k == "noise":
         n = len(w.y)
@@ -589,11 +612,14 @@ def run_program(c):
     except Exception:  # noqa
         pass
     executed = []
-    werr = bool(c.get("werror"))
+    # the warnings filter is process-wide: programs that turn warnings into errors never run next to other threads
+    werr = bool(c.get("werror")) and c.get("hist") not in ("threads", "preempt") \
+        and threading.current_thread() is threading.main_thread()
     wctx = warnings.catch_warnings()
     wctx.__enter__()
     try:
         _TL.werror = werr
+        _TL.argrep = c.get("argrep", "plain")
         if werr:
             warnings.simplefilter("error")
         for op in c["ops"]:
@@ -616,6 +642,8 @@ def run_program(c):
                 if op["op"] == "fail":
                     st["fail"] = op["kind"]
                     st["raised"] = op.get("_raised")
+                    if op.get("_grid_modified"):
+                        st["grid_modified"] = True
                 steps.append(st)
                 lines.append(line)
             except Warning as e:  # noqa: only with warnings treated as errors
@@ -630,6 +658,7 @@ def run_program(c):
                 break
     finally:
         _TL.werror = False
+        _TL.argrep = "plain"
         wctx.__exit__(None, None, None)
     c["ops"] = executed + [o for o in c["ops"] if o not in executed and False]
     for q in c.get("queries", []):
@@ -651,6 +680,8 @@ def accepted_invalid(io):
     for i, st in enumerate(io.get("steps", [])):
         if st.get("fail") and st.get("raised") is None:
             return f"step {i}: the invalid request '{st['fail']}' was accepted instead of being refused"
+        if st.get("grid_modified"):
+            return f"step {i}: the grid handed to interpolate by the caller was written to"
     return None
 
 
